@@ -2,6 +2,7 @@ package main
 
 import (
 	"fmt"
+	"go/token"
 	"go/types"
 
 	"golang.org/x/tools/go/ssa"
@@ -563,4 +564,163 @@ func hasClobber(t *Term, depth int) bool {
 		}
 	}
 	return false
+}
+
+// ---- dispatch tables ---------------------------------------------------------------------
+// A package-level map filled once by the initialiser with constant or package-level keys and function or
+// constant values, and only looked up afterwards, is a switch statement written as data. A lookup in it is
+// walked as the chain  if key == k1 {v1} else if key == k2 {v2} ... else absent,  which produces the same
+// comparison atoms as the switch it may have replaced.
+
+type tableEntry struct {
+	key ssa.Value // *ssa.Const or load of a package-level variable
+	val ssa.Value // *ssa.Function, *ssa.MakeClosure without bindings, or *ssa.Const
+}
+
+var dispatchMemo = map[*ssa.Global][]tableEntry{}
+var dispatchDone = map[*ssa.Global]bool{}
+
+func (p *Program) dispatchTable(g *ssa.Global) []tableEntry {
+	if dispatchDone[g] {
+		return dispatchMemo[g]
+	}
+	dispatchDone[g] = true
+	if g.Pkg == nil || !inModule(g.Pkg.Func("init")) {
+		return nil
+	}
+	if _, ok := g.Type().Underlying().(*types.Pointer).Elem().Underlying().(*types.Map); !ok {
+		return nil
+	}
+	init := initFn(g)
+	var mm *ssa.MakeMap
+	for _, sv := range storedInto(init, g) {
+		m, ok := sv.(*ssa.MakeMap)
+		if !ok || mm != nil {
+			return nil
+		}
+		mm = m
+	}
+	if mm == nil {
+		return nil
+	}
+	// outside the initialiser the map is only read
+	for _, fn := range p.AllFuncs {
+		if fn == init {
+			continue
+		}
+		for _, b := range fn.Blocks {
+			for _, in := range b.Instrs {
+				for _, op := range in.Operands(nil) {
+					if *op != ssa.Value(g) {
+						continue
+					}
+					ld, ok := in.(*ssa.UnOp)
+					if !ok || ld.Op.String() != "*" || ld.Referrers() == nil {
+						return nil
+					}
+					for _, ref := range *ld.Referrers() {
+						switch r := ref.(type) {
+						case *ssa.Lookup, *ssa.Range, *ssa.DebugRef:
+						case ssa.CallInstruction:
+							if b, ok := r.Common().Value.(*ssa.Builtin); !ok || b.Name() != "len" {
+								return nil
+							}
+						default:
+							return nil
+						}
+					}
+				}
+			}
+		}
+	}
+	var out []tableEntry
+	for _, b := range init.Blocks {
+		for _, in := range b.Instrs {
+			mu, ok := in.(*ssa.MapUpdate)
+			if !ok || mu.Map != ssa.Value(mm) {
+				continue
+			}
+			switch k := mu.Key.(type) {
+			case *ssa.Const:
+			case *ssa.UnOp:
+				if _, isG := k.X.(*ssa.Global); !isG || k.Op.String() != "*" {
+					return nil
+				}
+			default:
+				return nil
+			}
+			val := mu.Value
+			if ct, ok := val.(*ssa.ChangeType); ok {
+				val = ct.X // a function converted to the table's named function type
+			}
+			switch v := val.(type) {
+			case *ssa.Const, *ssa.Function:
+			case *ssa.MakeClosure:
+				if len(v.Bindings) != 0 {
+					return nil
+				}
+			default:
+				return nil
+			}
+			out = append(out, tableEntry{mu.Key, val})
+		}
+	}
+	dispatchMemo[g] = out
+	return out
+}
+
+// globalByName resolves the rendering "pkg.name" of a package-level variable.
+func (p *Program) globalByName(name string) *ssa.Global {
+	for _, sp := range p.SSAPkgs {
+		if sp == nil {
+			continue
+		}
+		pre := shortPkg(sp.Pkg) + "."
+		if len(name) > len(pre) && name[:len(pre)] == pre {
+			if g, ok := sp.Members[name[len(pre):]].(*ssa.Global); ok {
+				return g
+			}
+		}
+	}
+	return nil
+}
+
+// tableLookup walks m[k] for a dispatch table; ok=false when m is not one.
+func (w *Walker) tableLookup(m, k *Term, fr *frame, x *ssa.Lookup) (*Term, bool) {
+	if m.Op != "global" {
+		return nil, false
+	}
+	g := w.P.globalByName(m.Name)
+	if g == nil {
+		return nil, false
+	}
+	tab := w.P.dispatchTable(g)
+	if tab == nil {
+		return nil, false
+	}
+	vt := elemType(m.Typ)
+	for _, e := range tab {
+		var kt *Term
+		if ld, ok := e.key.(*ssa.UnOp); ok {
+			kt = w.load(w.val(fr, ld.X), x, fr.fn, fr.depth)
+		} else {
+			kt = w.val(fr, e.key)
+		}
+		cmp := w.binop(token.EQL, k, kt, types.Typ[types.Bool])
+		if w.decide(cmp) {
+			v := w.val(fr, e.val)
+			if mc, ok := e.val.(*ssa.MakeClosure); ok {
+				v = &Term{Op: "closure", Fn: mc.Fn.(*ssa.Function), Typ: mc.Type()}
+			}
+			if x.CommaOk {
+				return &Term{Op: "tuple", Args: []*Term{v, mkBool(true)}, Typ: x.Type()}, true
+			}
+			return v, true
+		}
+	}
+	z := zeroOf(vt)
+	if x.CommaOk {
+		return &Term{Op: "tuple", Args: []*Term{z, mkBool(false)}, Typ: x.Type()}, true
+	}
+	return z, true
 }
